@@ -58,6 +58,7 @@ POOLS = {
     "mixed": ["a", 3, ("x", 1), frozenset({2})],
     "mixed2": [None, 2.5, ("q",), "None"],
     "negzero": [-1, "1", (1,), 1.5],
+    "falsy": [(), 0, "", None],          # every label is falsy in Python; () is also numpy's "select all"
 }
 
 
@@ -391,6 +392,10 @@ def o_tree(inst):
                     # measure: bound every measure on its own (the family is additionally model checked
                     # in bulk for overflow-guard trips, see make_near_cases)
                     worst[0] = max([worst[0]] + [magnitude(x) for x in (D, post, [obs], *extra)])
+                    if op == "and":      # the raw products p(e) q(e) and their sum, before normalising
+                        raw = [D[e] * a[e] for e in D if e in a]
+                        worst[0] = max(worst[0], magnitude(raw),
+                                       max([D[e].denominator * a[e].denominator for e in D if e in a] + [0]))
                 else:
                     worst[0] = max(worst[0], magnitude(D, post, [obs], *extra))
                 tn2 = o_tiny_after(inst, D, tn, sc2, op, j, a, post)
@@ -552,6 +557,13 @@ def clsname(obj):
     return type(obj).__name__
 
 
+def observed(ctx, what):
+    """Behaviour of the unchanged tree that the reference model expects and the statement does not
+    cover (sample() of a UniformDistribution over a set / keys view raises TypeError; TableDistribution
+    .prob of a tuple / list outside its domain raises or returns the table): counted in the evidence."""
+    ctx.count(f"observed:{what}")
+
+
 def drift_once(ctx, step, key, detail):
     """Report a DRIFT once per (step, key); further occurrences are only counted."""
     seen = ctx.__dict__.setdefault("_c11_seen", set())
@@ -573,6 +585,8 @@ def compare(case, obj, exp, *, ordered=True, outside=True, tol=None):
         return [("items", f"items() raised {type(e).__name__}: {e}")], []
     real = {}
     for c, p in items:
+        if not isinstance(p, (int, float, np.floating, np.integer)) or isinstance(p, bool):
+            return [("items", f"items() lists {c!r} with a {type(p).__name__} instead of a probability")], drift
         a = abstr(c, inv)
         if a is None:
             if p != 0:
@@ -605,7 +619,9 @@ def compare(case, obj, exp, *, ordered=True, outside=True, tol=None):
             if (i,) not in exp:
                 try:
                     q = obj.prob(labels[i - 1])
-                    if q != 0:
+                    if not isinstance(q, (int, float, np.floating, np.integer)):
+                        drift.append(("prob-outside-support", f"{clsname(obj)}.prob({labels[i - 1]!r}) returned a {type(q).__name__}"))
+                    elif q != 0:
                         viol.append(("prob", f"prob({labels[i - 1]!r}) = {q!r} for an event outside the support"))
                 except BaseException as ex:                 # noqa: BLE001
                     if isinstance(ex, (KeyboardInterrupt, SystemExit)):
@@ -741,7 +757,7 @@ def replay_case(ctx, i, c, chains, traces, ndraws, corrupt, corrupt_init=None):
         sig = f"C11:{site}.{meth}{operand}:{clause}:{shape}"
         what = f"{site}.{meth}{operand} [{clause}] after {list(prefix)}: {text}"
         if variant in DRIFT_VARIANTS:
-            drift_once(ctx, f"{site}.{meth}", clause, {"what": what[:200]})
+            observed(ctx, f"{site}.{meth}:{clause}")
             return
         case_ok = False
         ctx.violation(sig, what, {"case": c.json(), "variant": variant, "chain": [list(x) for x in prefix] + ([[op, j]] if op else []),
@@ -752,6 +768,9 @@ def replay_case(ctx, i, c, chains, traces, ndraws, corrupt, corrupt_init=None):
             if step in ("items-order",):
                 ctx.count(f"drift:{step}")
                 continue                               # counted only: order is never promised
+            if step == "prob-outside-support":
+                observed(ctx, text.split("(")[0][:60] + " outside the support does not return 0")
+                continue
             drift_once(ctx, step, text.split("(")[0][:60], {"where": where, "detail": text[:200]})
 
     # initial objects of every kind
@@ -877,7 +896,7 @@ def replay_case(ctx, i, c, chains, traces, ndraws, corrupt, corrupt_init=None):
             if not positive and len(exp) != 1:
                 ctx.skip("sampling undefined: no event of positive probability")
             elif v in DRIFT_VARIANTS:
-                drift_once(ctx, f"{site}.sample", "error", {"what": f"raised {type(err).__name__}: {err}"[:200]})
+                observed(ctx, f"{site}.sample raised {type(err).__name__}")
             else:
                 case_ok = False
                 ctx.violation(f"C11:{site}.sample:error:{shape_of(exp)}", f"{site}.sample raised {type(err).__name__}: {err}",
@@ -930,14 +949,14 @@ def validate_traces(ctx, cases, traces):
             kind = "one-point" if len(r["dist"]["ev"]) == 1 else ("zero-probability-event" if any(
                 ev_of(x) == e for x in r["dist"]["ev"]) else "event-outside-support")
             if t["variant"] in DRIFT_VARIANTS:
-                drift_once(ctx, f"{t['site']}.sample", kind, {"what": kind})
+                observed(ctx, f"{t['site']}.sample:{kind}")
                 continue
             ctx.violation(f"C11:{t['site']}.sample:{kind}:{t['shape']}",
                           f"{t['site']}.sample returned {conc(e, c.labels)!r} at draw {r['at']}: not an enabled Sample of the model "
                           f"(distribution {r['dist']})", case)
         elif r["verdict"] == "rejected-seed":
             if t["variant"] in DRIFT_VARIANTS:
-                drift_once(ctx, f"{t['site']}.sample", "seed", {"what": "seeded sequences differ"})
+                observed(ctx, f"{t['site']}.sample:seeded sequences differ")
                 continue
             ctx.violation(f"C11:{t['site']}.sample:seeded-sequences-differ:{t['shape']}",
                           f"two generators seeded equally gave different sample sequences (first difference at draw {r['at']})", case)
@@ -994,6 +1013,152 @@ def make_near_cases(rng, n, ctx=None):
         pool = pools[len(cases) % len(pools)]
         cases.append(Case(inst, pool, rng.sample(range(len(POOLS[pool])), NA)))
     return cases
+
+
+RARE_D = 2 ** 27          # 1 / 2^27 = 7.5e-9: positive, below every "close to zero" tolerance of msdm (1e-8)
+RARE_WEIGHTS = [[1, 128, 2 ** 27 - 129], [1, 2 ** 27 - 1], [1, 1, 2 ** 27 - 2], [128, 1, 0, 2 ** 27 - 129],
+                [1, 2], [2 ** 27 - 64, 64], [1, 2 ** 20, 2 ** 27 - 2 ** 20 - 1]]
+RARE_OPS = ["and", "norm", "marg"]
+RARE_MAGLIM = 2 ** 30
+
+
+def make_rare_cases(rng, n, ctx=None):
+    """Unlikely but possible events: weights 1/2^27 .. 128/2^27 next to ordinary ones, in the receiver or in
+    the operand of a conjunction (also normalize / marginalize), incl. measures all of whose events are rare.
+    The exact products stay inside 30 bits through the cross-cancelling product of the spec."""
+    cases = []
+    pools = sorted(POOLS)
+    tries = 0
+    while len(cases) < n and tries < 20 * n:
+        tries += 1
+        w = list(RARE_WEIGHTS[tries % len(RARE_WEIGHTS)])
+        rng.shuffle(w)
+        atoms = rng.sample(range(1, NA + 1), len(w))
+        rare = {"kind": ["dict", "table", "pairs"][len(cases) % 3], "ev": [[a] for a in atoms], "w": w, "d": RARE_D,
+                "k": [0] * len(w), "ni": [0] * len(w)}
+        plain = rand_rec(rng, kind=rng.choice(["dict", "table", "uniform"]), size=len(w))
+        plain["ev"] = [[a] for a in rng.sample(atoms, len(atoms))]
+        if plain["kind"] != "uniform":
+            plain["w"] = [rng.choice([1, 1, 2, 3]) for _ in atoms]
+            plain["d"] = rng.choice([1, 2, 4])
+        elif len(atoms) == 3:
+            plain["kind"], plain["w"], plain["d"] = "dict", [1, 1, 2], 4
+        other = rand_rec(rng, kind=rng.choice(["dict", "table", "det"]), size=rng.choice([1, 2]))
+        if other["kind"] != "det":
+            other["d"] = rng.choice([2, 4])
+        # one operation: a second conjunction with 2^-27 weights squares the denominators out of 30 bits
+        inst = make_instance(rng, 1)
+        if len(cases) % 2 == 0:
+            inst["init"], inst["O"] = rare, [plain, other]
+        else:
+            inst["init"], inst["O"] = plain, [rare, other]
+        inst["OPS"] = list(RARE_OPS)
+        inst["MAGLIM"] = RARE_MAGLIM
+        fix_inst(inst)
+        _, mag = o_tree(inst)
+        if mag >= RARE_MAGLIM:
+            if ctx is not None:
+                ctx.skip("rare-probability instance beyond the magnitude bound")
+            continue
+        pool = pools[len(cases) % len(pools)]
+        cases.append(Case(inst, pool, rng.sample(range(len(POOLS[pool])), NA)))
+    return cases
+
+
+# --------------------------------------------------------------------------------------------
+# softmax over integer (exact) scores, shifts beyond 2^53 (spec/C11_SoftmaxInt.tla)
+# --------------------------------------------------------------------------------------------
+BIGS = [2 ** 53, 2 ** 53 + 1, 2 ** 64 + 1, 10 ** 30, -(2 ** 70), -(2 ** 53) - 2, 3 * 10 ** 18]
+CFG_INT = "INIT Init\nNEXT Next\nCHECK_DEADLOCK FALSE\nINVARIANT Emit\nINVARIANT ShiftInvariant\nINVARIANT Normalisable\nINVARIANT InstancesWellFormed\n"
+
+
+def make_int_softmax_cases(rng, n):
+    cases = []
+    pools = sorted(POOLS)
+    for i in range(n):
+        size = rng.choice([2, 3, 3, 4])
+        k = [rng.randint(-3, 3) for _ in range(size)]
+        if i % 3 == 0:
+            k = rng.sample([0, 1, 3, -2, 2], size)
+        bigs = rng.sample(BIGS, 2)
+        C = [{"small": rng.choice([-7, 1, 5, 10000]), "big": 0}, {"small": 0, "big": 1},
+             {"small": rng.choice([-1, 0, 2]), "big": 2}]
+        pool = pools[i % len(pools)]
+        cases.append({"k": k, "C": C, "BIG": [str(b) for b in bigs], "DEPTH": 2, "pool": pool,
+                      "atoms": rng.sample(range(NA), size)})
+    return cases
+
+
+def judge_int_softmax(ctx, cases):
+    """Pipeline A for integer-score softmax: TLC explores every chain of 2 shifts (small and symbolic big
+    parts), checks ShiftInvariant in every state and emits the score gaps; the real SoftmaxDistribution is
+    built from the exact Python ints after every shift and must be normalised, have log-ratios equal to the
+    gaps and equal the unshifted distribution."""
+    from msdm.core.distributions import SoftmaxDistribution
+    batch = [{"k": c["k"], "C": c["C"], "BIG": c["BIG"], "DEPTH": c["DEPTH"]} for c in cases]
+    res = run_tlc(ctx.workdir / "smint", "C11_SoftmaxInt", CFG_INT, files={"batch.json": batch},
+                  env={"BATCH_FILE": "batch.json"})
+    ctx.add_tlc(res, "softmax over integer scores: every chain of 2 shifts (incl. symbolic shifts beyond 2^53)")
+    if res.violated:
+        raise TLCFailure(f"design-level invariant violated in C11_SoftmaxInt: {sorted(set(res.violated))}")
+    per = {}
+    for r in res.records:
+        per.setdefault(r["iid"] - 1, []).append(r)
+    for i, c in enumerate(cases):
+        labels = [POOLS[c["pool"]][a] for a in c["atoms"]]
+        recs = per.get(i, [])
+        if len(recs) != len(c["C"]) ** c["DEPTH"]:
+            raise TLCFailure(f"C11_SoftmaxInt: {len(recs)} chains for instance {i + 1}")
+        done = set()
+        ok_case = True
+
+        def fail(clause, what, chain):
+            nonlocal ok_case
+            ok_case = False
+            ctx.violation(f"C11:SoftmaxDistribution.__init__:{clause}:int-scores", f"integer scores {what}",
+                          {"intsoftmax": c, "chain": chain, "clause": clause})
+
+        def check(scores, gaps, chain, base):
+            """scores: exact Python ints.  -> the real distribution or None"""
+            # machinery cross-check of the symbolic model with unbounded integers
+            if [max(scores) - x for x in scores] != list(gaps):
+                raise TLCFailure(f"C11_SoftmaxInt gaps {gaps} disagree with exact integers {scores}")
+            try:
+                d = SoftmaxDistribution(dict(zip(labels, scores)))
+                ctx.evaluations += 1
+            except Exception as e:                      # noqa: BLE001
+                fail("error", f"{scores} raised {type(e).__name__}: {e}", chain)
+                return None
+            ps = [d[l] for l in labels]
+            if not (abs(sum(ps) - 1.0) <= TOL_NORM):
+                fail("softmax-normalised", f"{scores}: total {sum(ps)!r}", chain)
+                return None
+            pm = max(ps)
+            for l, p, g in zip(labels, ps, gaps):
+                # log(p_max / p_i) = gap: exp/log are accurate to ~1 ulp, gaps <= 30 -> 1e-9 absolute is ample
+                if not (p > 0 and abs(math.log(pm / p) - g) <= TOL):
+                    fail("softmax-ratio", f"{scores}: P({l!r}) = {p!r}, log(p_max/p) must be {g}", chain)
+                    return None
+            if base is not None and not all(abs(d[l] - base[l]) <= TOL_NORM * base[l] for l in labels):
+                fail("softmax-shift", f"{scores}: {dict(d)} differs from the unshifted {dict(base)}", chain)
+                return None
+            return d
+
+        base = check(list(c["k"]), recs[0]["gap0"], [], None)
+        for r in recs:
+            chain = []
+            for h in r["hist"]:
+                chain.append(h["j"])
+                key = tuple(chain)
+                if key in done or base is None:
+                    continue
+                done.add(key)
+                bigsum = sum(int(c["BIG"][b - 1]) for b in h["off"])
+                check([x + bigsum for x in h["sc"]], h["gap"], list(chain), base)
+        if ok_case and base is not None:
+            ctx.validated += len(recs)
+            if len(set(c["k"])) > 1:
+                ctx.nontrivial(f"intsoftmax:{digest(c)}")
 
 
 def make_cases(rng, n, depth, ctx=None):
@@ -1071,6 +1236,12 @@ def run(ctx):
         ctx.count("exhaustive_initial_measures", len(cases))
         for k in range(0, len(cases), 150):
             judge(ctx, cases[k:k + 150])
+    ints = make_int_softmax_cases(rng, 14 if ctx.tier == "quick" else 150)
+    ctx.count("integer_score_softmax_instances", len(ints))
+    judge_int_softmax(ctx, ints)
+    rare = make_rare_cases(rng, 14 if ctx.tier == "quick" else 70, ctx)
+    ctx.count("rare_probability_instances", len(rare))
+    judge(ctx, rare)
     near = make_near_cases(rng, 22 if ctx.tier == "quick" else 110, ctx)
     ctx.count("near_normalised_instances", len(near))
     judge(ctx, near)
@@ -1082,6 +1253,9 @@ def run(ctx):
 
 
 def replay(ctx, case):
+    if "intsoftmax" in case:
+        judge_int_softmax(ctx, [case["intsoftmax"]])
+        return
     c = case["case"]
     judge(ctx, [Case(c["inst"], c["pool"], c["perm"])])
 
